@@ -298,3 +298,54 @@ pub fn sig_classes(s: &RSig) -> Vec<&'static str> {
     }
     v
 }
+
+// ---- names -------------------------------------------------------------------------------------
+
+fn gen_element(src: &mut Src, first: &[u8], rest: &[u8]) -> String {
+    let n = src.below(5);
+    let mut s = String::new();
+    s.push(first[src.below(first.len())] as char);
+    for _ in 0..n {
+        s.push(rest[src.below(rest.len())] as char);
+    }
+    s
+}
+
+pub fn gen_interface_name(src: &mut Src) -> String {
+    let n = 2 + src.below(3);
+    (0..n).map(|_| gen_element(src, b"abcXYZ_", b"abcXYZ_019")).collect::<Vec<_>>().join(".")
+}
+pub fn gen_error_name(src: &mut Src) -> String {
+    gen_interface_name(src)
+}
+pub fn gen_member_name(src: &mut Src) -> String {
+    gen_element(src, b"abcXYZ_M", b"abcXYZ_019")
+}
+pub fn gen_well_known_name(src: &mut Src) -> String {
+    let n = 2 + src.below(3);
+    (0..n).map(|_| gen_element(src, b"abcXYZ_-", b"abcXYZ_-019")).collect::<Vec<_>>().join(".")
+}
+pub fn gen_unique_name(src: &mut Src) -> String {
+    let n = 2 + src.below(2);
+    format!(":{}", (0..n).map(|_| gen_element(src, b"0123456789a_-", b"0123456789ab_-")).collect::<Vec<_>>().join("."))
+}
+pub fn gen_bus_name(src: &mut Src) -> String {
+    if src.bool() {
+        gen_unique_name(src)
+    } else {
+        gen_well_known_name(src)
+    }
+}
+
+/// message body: 0..=4 arguments
+pub fn gen_body(src: &mut Src, so: &SigOpts, vo: &ValOpts) -> Vec<RVal> {
+    let n = src.weighted(&[3, 5, 4, 2, 1]);
+    (0..n)
+        .map(|_| {
+            let mut sfuel = 1 + src.below(5);
+            let s = gen_sig(src, so, 0, &mut sfuel);
+            let mut vfuel = 10;
+            gen_val(src, &s, vo, so, &mut vfuel)
+        })
+        .collect()
+}
